@@ -22,7 +22,7 @@
 #endif
 #define FTS_NMAX NFMAX
 #include "fe_contracts.h"
-#define ROWSZ (((FLEN + 16 + 15) / 16) * 16)      /* rows start 16-byte aligned */
+#define ROWSZ(p) (MISOFF(p) + FLEN)      /* EXACT-size objects (C15): a supplied fragment ends where its object ends, so any read past fragment_len is out of bounds; the object base is 16-byte aligned, offset 1 makes the fragment misaligned */
 static unsigned char *slotbuf[NFMAX];              /* one object per supplied entry (constant offsets keep the pointer reasoning small) */
 static unsigned char *slotcopy[NFMAX];
 #define MISOFF(p) (MIS == 0 ? 0 : MIS == 1 ? 1 : ((p) & 1))
@@ -83,7 +83,7 @@ void harness(void)
   for (int p = 0; p < NFMAX; p++) {
     in_pick[p] = nondet_int(); in_dmg[p] = 0; in_hdrbad[p] = nondet_bool();
     __CPROVER_assume(0 <= in_pick[p] && in_pick[p] < N);
-    slotbuf[p] = malloc(ROWSZ); slotcopy[p] = malloc(ROWSZ);
+    slotbuf[p] = malloc(ROWSZ(p)); slotcopy[p] = malloc(ROWSZ(p));
     unsigned char *h = slotbuf[p] + MISOFF(p);
     /* a copy of stripe fragment in_pick[p]: the header fields the front end reads + the payload; the
        remaining header bytes are whatever encode wrote (arbitrary here: nobody below the body's callees reads them) */
@@ -104,7 +104,7 @@ void harness(void)
 #endif
   }
   g_nf = in_nf;
-  for (int p = 0; p < NFMAX; p++) memcpy(slotcopy[p], slotbuf[p], ROWSZ);
+  for (int p = 0; p < NFMAX; p++) memcpy(slotcopy[p], slotbuf[p], ROWSZ(p));
   int anyhdrbad = 0; for (int p = 0; p < NFMAX; p++) if (p < in_nf && in_hdrbad[p]) anyhdrbad = 1;
   int nmissing = 0, nvalid = 0, havealldata = 1;
   for (int i = 0; i < N; i++) { nmissing += !g_avail[i]; nvalid += valid[i]; if (i < K && !g_avail[i]) havealldata = 0; }
@@ -192,7 +192,7 @@ void harness(void)
 #endif
   if (rc < 0 && argsok) CANARY("reconstruct fails on a well-formed request");
 #endif
-  { int p = nondet_int(), b = nondet_int(); __CPROVER_assume(0 <= p && p < NFMAX && 0 <= b && b < ROWSZ);     /* any byte of any entry */
+  { int p = nondet_int(), b = nondet_int(); __CPROVER_assume(0 <= p && p < NFMAX && 0 <= b && b < ROWSZ(p));     /* any byte of any entry */
     __CPROVER_assert(slotbuf[p][b] == slotcopy[p][b], "C15: the caller's fragments are not written"); }
   for (int p = 0; p < NFMAX; p++) { free(slotbuf[p]); free(slotcopy[p]); }
   CANARY("harness end");
